@@ -29,6 +29,10 @@ CLAIMED = {
     "C08": ("the crash point is one decision variable ranging over every byte offset of files of three layouts and three codecs; the oracle is computed from the layout", "DESIGN.md C08"),
     "C09": ("inductive step from an arbitrary valid encoder state (covers histories of any length) plus all bounded histories, checked with a reference block parser", "DESIGN.md C09"),
     "C10": ("inductive allocator step from arbitrary bank states plus retained-record harness over multi-block files with bank close/recycle; aliasing is decided on the engine's object heap", "DESIGN.md C10"),
+    "C11": ("GC schedules cannot be quantified over by a solver; decided instead: heap well-typedness of everything the codecs allocate and store (per-store assertions in the "
+            "engine's typed heap, for all inputs), which is the schedule-independent condition under which a precise collector sees every reachable object; native replays add forced collections and churn", "DESIGN.md C11"),
+    "C12": ("interleavings are not explored; decided instead, for all inputs: each operation's write set is private or lock-guarded and registry accesses hold the right mutex "
+            "(ownership / lockset monitor in the engine), from which race freedom and result equivalence follow for every schedule", "DESIGN.md C12"),
     "C13": ("caller-written schemas x covering Go types; reference decoder under the caller's schema and read-back, for all values within the schema type's range", "DESIGN.md C13"),
     "C16": ("the fault index is a decision variable over every Write call of every bounded history; fault-free twin for the prefix clause", "DESIGN.md C16"),
     "C17": ("full-width symbolic execution of the primitive codecs: every int64/int32/int16 value, every float32/float64 bit pattern, "
